@@ -7,7 +7,8 @@ C18 — property statements.
 (b) `trailerCheck_reject_iff`, `truncated_footer_rejected_unless_trailer` (+ Parquet / IPC
     instances), `truncated_footer_rejected_of_no_inner_magic`, `short_prefix_rejected`
 (c) `sink_prefix`, `sink_ok_complete`, `sink_benign_ok`, `writer_source_shape`,
-    `sticky_failure`, `session_spec`, `parquet_writer_state_shape`
+    `sticky_failure`, `session_spec`, `parquet_writer_state_shape`,
+    `finish_refuses_after_failure`, `writer_failed_state_shape`
 (d) `records_truncation`
 -/
 namespace ArrowModel.C18
@@ -389,6 +390,71 @@ theorem session_spec (ops : List (List Call)) (st : WState) :
       have := hall (apiCall st c).2 (List.mem_cons_self ..)
       rw [hf] at this; cases this
 
+
+theorem apiCallG_poisoned_mono (g : Bool) (st : WState) (cs : List Call) (h : st.poisoned = true) :
+    (apiCallG g st cs).1.poisoned = true := by
+  unfold apiCallG
+  cases g
+  · simp only [Bool.false_and, Bool.false_eq_true, if_false]
+    generalize runCalls st.sched st.acc cs = w
+    obtain ⟨s', acc', ok⟩ := w
+    simp [h]
+  · simp [h]
+
+theorem apiCallG_false_poisons (g : Bool) (st : WState) (cs : List Call)
+    (h : (apiCallG g st cs).2 = false) : (apiCallG g st cs).1.poisoned = true := by
+  by_cases hp : st.poisoned = true
+  · exact apiCallG_poisoned_mono g st cs hp
+  · unfold apiCallG at h ⊢
+    have hp' : st.poisoned = false := by simpa using hp
+    simp only [hp', Bool.and_false, Bool.false_eq_true, if_false, Bool.false_or] at h ⊢
+    generalize runCalls st.sched st.acc cs = w at h ⊢
+    obtain ⟨s', acc', ok⟩ := w
+    simp at h ⊢
+    exact h
+
+theorem apiSeqG_poisoned (st : WState) (ops : List (Bool × List Call))
+    (h : st.poisoned = true ∨ false ∈ (apiSeqG st ops).2) : (apiSeqG st ops).1.poisoned = true := by
+  induction ops generalizing st with
+  | nil => simpa [apiSeqG] using h
+  | cons c cs ih =>
+    obtain ⟨g, c⟩ := c
+    simp only [apiSeqG, List.mem_cons] at h ⊢
+    apply ih
+    rcases h with h | h | h
+    · exact Or.inl (apiCallG_poisoned_mono g st c h)
+    · exact Or.inl (apiCallG_false_poisons g st c h.symm)
+    · exact Or.inr h
+
+/-- **After a failed call no later `finish` reports success** (writers with a `failed` flag).
+For every fault schedule and every session of API calls — guarded or not, the caller free to keep
+calling after errors — if any call reported failure then a subsequent guarded call (`finish`,
+`close`, `into_inner`; for IPC and Avro also `write`) reports failure and leaves the sink
+untouched.  This is the law the repaired arrow-ipc, arrow-json, arrow-avro writers and
+`AsyncArrowWriter` implement (guards pinned by `writer_failed_state_shape`); the sync Parquet
+writers are covered by `sticky_failure`. -/
+theorem finish_refuses_after_failure (st : WState) (ops : List (Bool × List Call)) (fin : List Call)
+    (h : st.poisoned = true ∨ false ∈ (apiSeqG st ops).2) :
+    (apiCallG true (apiSeqG st ops).1 fin).2 = false ∧
+    (apiCallG true (apiSeqG st ops).1 fin).1.acc = (apiSeqG st ops).1.acc := by
+  have hp := apiSeqG_poisoned st ops h
+  simp [apiCallG, hp]
+
+/-- non-trivial session: an unguarded `write` fails half-way, another unguarded write succeeds
+(arrow-json), the guarded `finish` still refuses -/
+example : (apiSeqG ⟨[.short 1, .fail], [], false⟩
+    [(false, [.write [1, 2, 3]]), (false, [.write [4]]), (true, [.write [93]])]).2 = [false, true, false] := by
+  decide
+
+/-- **Source shape of the `failed` guards**: arrow-ipc `FileWriter`/`StreamWriter` (`write` and
+`finish` start with `check_not_failed()?`, an `IoError` of `write` sets the flag, `finish` holds it
+while the end-of-stream marker / footer is written and clears it only after the flush), arrow-json
+`Writer` (both `write_all` sites set it, `finish` starts with the guard), arrow-avro `Writer`
+(`write`/`finish` guarded, an `IoError` sets it), `AsyncArrowWriter` (`do_write` guarded and sets
+it when the awaited write fails; `finish` goes through `do_write`). -/
+theorem writer_failed_state_shape :
+    (SHAPE_IPC_FILE_FAILED_GUARDS_lost || SHAPE_IPC_STREAM_FAILED_GUARDS_lost || SHAPE_JSON_FAILED_GUARDS_lost ||
+      SHAPE_AVRO_FAILED_GUARDS_lost || SHAPE_ASYNC_FAILED_GUARDS_lost) = false := by decide
 
 /-- **Source shape of the state tracking in `SerializedFileWriter`** (what makes it an instance of
 `WState`): in `next_row_group`'s `on_close` the bloom filters are written (`write_bloom_filters(…)?`)
